@@ -90,6 +90,31 @@ func (vc *VC) calleeEnv(fc *FuncContract, callee *ssa.Function, args, binds []Va
 				env.names[fv.Name()] = envEntry{lazy: func(s *State) Val { return vc.derefPtr(b, pt, s) }}
 			}
 		}
+		// "option closure=param:fn": the function-typed parameter is always the
+		// closure fn (checked here, at every call site); the variables fn
+		// captures are visible to the contract under their own names
+		if fc != nil && fc.Opts["closure"] != "" {
+			pf := strings.SplitN(fc.Opts["closure"], ":", 2)
+			ok := false
+			for i, p := range callee.Params {
+				if p.Name() == pf[0] && i < len(args) && len(pf) == 2 {
+					a := args[i]
+					if a.K == KFunc && a.Fn != nil && a.Fn.Name() == pf[1] {
+						ok = true
+						for j, fv := range a.Fn.FreeVars {
+							if j < len(a.Fs) {
+								b := a.Fs[j]
+								pt := fv.Type().(*types.Pointer).Elem()
+								env.names[fv.Name()] = envEntry{lazy: func(s *State) Val { return vc.derefPtr(b, pt, s) }}
+							}
+						}
+					}
+				}
+			}
+			if !ok {
+				panic(unsupported("the contract of %s requires parameter %s to be the closure %s at every call", callee.Name(), pf[0], pf[len(pf)-1]))
+			}
+		}
 	} else if fc != nil {
 		for i, n := range fc.ExtNames {
 			if i < len(args) {
@@ -306,6 +331,13 @@ func (vc *VC) calleeFootprint(fc *FuncContract, comp, av string, env *Env, pre *
 	var parts []string
 	for _, mc := range fc.Modifies {
 		for _, mi := range mc.Mods {
+			if mi.MapOf != nil {
+				mv := vc.evalVal(mi.MapOf, env, pre, pre)
+				if isMapComp(comp, mv.T) {
+					parts = append(parts, eq(av, mv.S))
+				}
+				continue
+			}
 			if mi.Elems != nil {
 				sv := vc.evalVal(mi.Elems, env, pre, pre)
 				et := elemTypeOf(sv.T)
@@ -667,7 +699,10 @@ func (vc *VC) execMapUpdate(x *ssa.MapUpdate, st *State) {
 	dom, length, vals := vc.mapComps(t)
 	vc.oblige("safe", "nilmap", []string{"C03"}, not(eq(m.S, "nil")), nil)
 	if vc.fc != nil && vc.fc.Modifies != nil {
-		vc.oblige("frame", "mapupdate", []string{"C14"}, sx(">=", sx("rootOf", m.S), "|alloc@0|"), nil)
+		foot, whole := vc.footprint(dom, m.S)
+		if !whole {
+			vc.oblige("frame", "mapupdate", []string{"C14"}, or(sx(">=", sx("rootOf", m.S), "|alloc@0|"), foot), nil)
+		}
 	}
 	d := vc.heap(st, dom)
 	was := sx("select", sx("select", d, m.S), k.S)
@@ -689,7 +724,10 @@ func (vc *VC) execDelete(x *ssa.Call, m, k Val, st *State) {
 	t := x.Call.Args[0].Type()
 	dom, length, _ := vc.mapComps(t)
 	if vc.fc != nil && vc.fc.Modifies != nil {
-		vc.oblige("frame", "mapdelete", []string{"C14"}, or(eq(m.S, "nil"), sx(">=", sx("rootOf", m.S), "|alloc@0|")), nil)
+		foot, whole := vc.footprint(dom, m.S)
+		if !whole {
+			vc.oblige("frame", "mapdelete", []string{"C14"}, or(eq(m.S, "nil"), sx(">=", sx("rootOf", m.S), "|alloc@0|"), foot), nil)
+		}
 	}
 	d := vc.heap(st, dom)
 	was := and(not(eq(m.S, "nil")), sx("select", sx("select", d, m.S), k.S))
